@@ -292,6 +292,18 @@ def run_multi2(ctx, p):
         d = md(M, want)
         ctx.judge('motion', d <= TOL * sc, dict(sig, kind='value_of_sequence_wrong', element=kd),
                   lambda: 'element %d (%s) of Twist2 %s .exp(%s, %s) = %s, expected %s' % (i, kd, kinds, ths, units, core.short(M, 200), core.short(want, 200)))
+    # the reported kinds, value by value ("a prismatic twist is reported as prismatic and a revolute one is not, also for planar twists")
+    try:
+        pr, rv = T.isprismatic, T.isrevolute
+        if len(kinds) > 1:
+            okr = isinstance(pr, (list, np.ndarray)) and len(pr) == len(kinds) and all(bool(x) == (kd == 'P') for x, kd in zip(pr, kinds))
+            # (isrevolute is "zero translational part": true for a rotation about the origin only; a prismatic value never is)
+            okv = isinstance(rv, (list, np.ndarray)) and len(rv) == len(kinds) and all(not bool(x) for x, kd in zip(rv, kinds) if kd == 'P')
+        else:
+            okr, okv = bool(pr) == (kinds[0] == 'P'), True
+        ctx.judge('accessors', okr and okv, dict(sig, kind='per_value_report_wrong'), lambda: 'isprismatic=%s isrevolute=%s for planar unit twists of kinds %s' % (pr, rv, kinds))
+    except Exception as e:
+        ctx.bad('accessors', dict(sig, kind='raised', exc=type(e).__name__, where=_where(e)), 'isprismatic / isrevolute of a Twist2 of kinds %s raised %r' % (kinds, e))
     ctx.cell('multi2', sig['kinds'], units, sig['theta'])
     ctx.nontrivial('multi2', kinds, units, vec, [float('%.9g' % t) for d_ in data for t in d_])
 
